@@ -90,6 +90,120 @@ _FULL = frozenset((t, L) for L in (0, 1, 2, 5) for t in range(-3, 9))
 _INRANGE = frozenset((t, L) for t, L in _FULL if 0 <= t <= L)
 
 
+def _interp_read(fn_node, size_param, length_attr, size, L, P):
+    """Run PackedObjectReader.read abstractly for one (size, length, position): straight-line code, if/else, assignments to locals, returns.  Returns the list of
+    sizes passed to reads of the underlying handle, or None if a construct is not understood."""
+    env = {size_param: size}
+    reads = []
+
+    class Stop(Exception):
+        pass
+
+    def ev(e):
+        if isinstance(e, ast.Constant):
+            return e.value
+        if isinstance(e, ast.Name):
+            if e.id in env:
+                return env[e.id]
+            raise _Unknown
+        if isinstance(e, ast.Attribute) and isinstance(e.value, ast.Name) and e.value.id == 'self':
+            if e.attr == length_attr:
+                return L
+            if e.attr == '_pos':
+                return P
+            raise _Unknown
+        if isinstance(e, ast.UnaryOp):
+            v = ev(e.operand)
+            return (not v) if isinstance(e.op, ast.Not) else (-v if isinstance(e.op, ast.USub) else _raise())
+        if isinstance(e, ast.BinOp) and isinstance(e.op, (ast.Add, ast.Sub)):
+            a, b = ev(e.left), ev(e.right)
+            return a + b if isinstance(e.op, ast.Add) else a - b
+        if isinstance(e, ast.BoolOp):
+            if isinstance(e.op, ast.And):
+                for v in e.values:
+                    r = ev(v)
+                    if not r:
+                        return r
+                return r
+            for v in e.values:
+                r = ev(v)
+                if r:
+                    return r
+            return r
+        if isinstance(e, ast.Compare):
+            left = ev(e.left)
+            for op, rr in zip(e.ops, e.comparators):
+                right = ev(rr)
+                if isinstance(op, ast.Is):
+                    ok = left is right
+                elif isinstance(op, ast.IsNot):
+                    ok = left is not right
+                else:
+                    if left is None or right is None:
+                        if isinstance(op, ast.Eq):
+                            ok = left == right
+                        elif isinstance(op, ast.NotEq):
+                            ok = left != right
+                        else:
+                            raise _Unknown
+                    else:
+                        ok = {ast.Lt: left < right, ast.LtE: left <= right, ast.Gt: left > right, ast.GtE: left >= right, ast.Eq: left == right, ast.NotEq: left != right}.get(type(op))
+                    if ok is None:
+                        raise _Unknown
+                if not ok:
+                    return False
+                left = right
+            return True
+        if isinstance(e, ast.IfExp):
+            return ev(e.body) if ev(e.test) else ev(e.orelse)
+        if isinstance(e, ast.Call):
+            f = norm(e.func)
+            if f in ('min', 'max') and not e.keywords:
+                vals = [ev(a) for a in e.args]
+                return min(vals) if f == 'min' else max(vals)
+            if isinstance(e.func, ast.Attribute) and e.func.attr == 'read' and '_fhandle' in names_in(e.func.value):
+                reads.append(ev(e.args[0]) if e.args else None)
+                return '<bytes>'
+            if isinstance(e.func, ast.Attribute) and e.func.attr in ('_update_pos', 'tell') and 'self' in names_in(e.func.value):
+                return None
+            raise _Unknown
+        raise _Unknown
+
+    def _raise():
+        raise _Unknown
+
+    def run(stmts):
+        for st in stmts:
+            if isinstance(st, ast.Expr):
+                if isinstance(st.value, ast.Constant):
+                    continue
+                ev(st.value)
+            elif isinstance(st, (ast.Assign, ast.AnnAssign)) and st.value is not None:
+                tg = st.targets[0] if isinstance(st, ast.Assign) and len(st.targets) == 1 else getattr(st, 'target', None)
+                v = ev(st.value)
+                if isinstance(tg, ast.Name):
+                    env[tg.id] = v
+                else:
+                    raise _Unknown
+            elif isinstance(st, ast.If):
+                run(st.body if ev(st.test) else st.orelse)
+            elif isinstance(st, ast.Return):
+                if st.value is not None:
+                    ev(st.value)
+                raise Stop
+            elif isinstance(st, (ast.Assert, ast.Pass)):
+                continue
+            else:
+                raise _Unknown
+    try:
+        run(fn_node.body)
+    except Stop:
+        pass
+    except _Unknown:
+        return None
+    return reads
+
+
 class SeekMachine(Machine):
     """PackedObjectReader.seek for one constant `whence`: the variable used to compute the new position of the
     underlying handle is bounds-checked against 0 and the object length after its last assignment, it was normalised
@@ -249,7 +363,7 @@ def rewind_reset(ctx, chk, R6):
 
 
 
-def first_guard_rejects_whence(fn):
+def first_guard_rejects_whence(fn, prog=None):
     """True iff the first executable statement of `fn` raises when whence is not one of 0,1,2."""
     body = [s for s in fn.node.body if not (isinstance(s, ast.Expr) and isinstance(s.value, ast.Constant))]
     for st in body[:6]:
@@ -259,6 +373,12 @@ def first_guard_rejects_whence(fn):
                 vals = [c.value for c in ast.walk(t.comparators[0]) if isinstance(c, ast.Constant)]
                 if sorted(vals) == [0, 1, 2]:
                     return True
+                # a named constant (class attribute, os.SEEK_*): fold it
+                if prog is not None:
+                    from ..resolve import UNKNOWN as _U, fold as _fold
+                    v = _fold(prog, t.comparators[0], fn, {})
+                    if v is not _U and isinstance(v, (list, tuple, set, frozenset)) and sorted(v) == [0, 1, 2]:
+                        return True
         # only inert statements (assignments of call-free expressions, diagnostics, assertions without calls) may precede the guard
         if _inert(st):
             continue
@@ -533,7 +653,34 @@ def run(ctx, host=None):
         if isinstance(n, ast.Assign) and isinstance(n.targets[0], ast.Name) and isinstance(n.value, ast.BinOp) and isinstance(n.value.op, ast.Sub) \
                 and length_attr in names_in(n.value.left) and '_pos' in names_in(n.value.right):
             rem = n.targets[0].id
-    for r in reads:
+    # semantic reading first: interpret the method for small (size, length, position) and compare the size handed to the underlying read with
+    # `remaining if size is None or size < 0 else min(size, remaining)`; only if a construct is not understood fall back to the shape rules below
+    szp0 = rd.params[0] if rd.params else 'size'
+    sem_ok, sem_cex = True, None
+    for L_ in (0, 1, 4):
+        for P_ in range(0, L_ + 1):
+            for sz in (None, -3, -1, 0, 1, 2, 3, 7):
+                got = _interp_read(rd.node, szp0, length_attr, sz, L_, P_)
+                remaining = L_ - P_
+                want_n = remaining if (sz is None or sz < 0) else min(sz, remaining)
+                if got is None:
+                    sem_ok = None
+                    break
+                if got != [want_n]:
+                    sem_ok, sem_cex = False, (sz, L_, P_, got, want_n)
+                    break
+            if sem_ok is not True:
+                break
+        if sem_ok is not True:
+            break
+    if sem_ok is True:
+        chk.ok(R3, rd.qualname, f'read({szp0}) for {szp0} in (None, <0, 0, small, > remaining)', detail='the underlying handle is read exactly once, with `remaining` for None / negative sizes and min(size, remaining) otherwise')
+        chk.ok(R3, rd.qualname, 'read-all selection', detail='by evaluation over small sizes, lengths and positions')
+    elif sem_ok is False:
+        sz, L_, P_, got, want_n = sem_cex
+        chk.bad(R3, rd.qualname, f'read({sz}) with length={L_}, position={P_}', f'the underlying pack handle is read with size(s) {got} where {want_n} byte(s) must be requested: bytes of the neighbouring object can be returned, '
+                'read(0) must return an empty bytes object, a positive size must never read everything', where=f'{rd.module.relpath}:{rd.lineno}')
+    for r in (reads if sem_ok is None else []):
         a = r.args[0] if r.args else None
         ok = False
         if isinstance(a, ast.Name):
@@ -585,7 +732,9 @@ def run(ctx, host=None):
                 continue
             okall = False
         okall = okall and neg_seen
-    if okall:
+    if sem_ok is not None:
+        pass
+    elif okall:
         chk.ok(R3, rd.qualname, norm(allb[0].test), detail='all remaining bytes are returned only for size None / negative; read(0) takes the bounded branch and returns b\'\'')
     else:
         chk.bad(R3, rd.qualname, norm(allb[0].test) if allb else 'read-all branch', 'the branch that returns all remaining bytes is not selected exactly by `size is None or size < 0`: e.g. read(0) '
@@ -643,7 +792,7 @@ def run(ctx, host=None):
     # ---------------------------------------------------------------- R4
     for q in (POR + '.seek', ZL + '.seek'):
         f = prog.fn(q)
-        if first_guard_rejects_whence(f):
+        if first_guard_rejects_whence(f, prog):
             chk.ok(R4, q, 'if whence not in [0, 1, 2]: raise', detail='first statement', nontrivial=False)
         else:
             chk.bad(R4, q, 'whence guard', 'an invalid `whence` is no longer rejected before the first effect of seek()', where=f'{f.module.relpath}:{f.lineno}')
